@@ -1,13 +1,73 @@
 """C05 -- symbolic derivatives denote the true derivative on the original's domain."""
 from __future__ import annotations
-from ..derivcommon import run_derivative_property
-from ..derivengine import EXPR_ROUTES
+from ..model import load_model
+from ..harness import partition, valuations
+from ..evalengine import depth1_instances, constant_child_instances, pmap, param_class, region_class
+from ..derivcommon import run_derivative_property, chain_instances
+from ..derivengine import EXPR_ROUTES, second_order_group
+from .. import spec
+
+
+def check_second_order(rep):
+    """differentiating the returned expression once more yields the true second-order partial"""
+    model = load_model()
+    tier = rep.tier
+    atoms = partition(model, "quick")
+    inst, _ = depth1_instances(model, "quick")
+    inst = [(t, l) for (t, l) in inst if t[0] != "Constant"]
+    inst += [(t, l) for (t, l) in chain_instances(model, "quick") if "NthRoot[" not in l and "NthPower[" not in l]
+    inst += constant_child_instances(model, "quick")
+    tasks = []
+    for tree, label in inst:
+        names = spec.variables(tree)
+        if not names or len(names) > 2:
+            continue
+        vals = list(valuations(names, atoms))
+        pairs = [(a, b) for a in names for b in names]
+        if tier == "quick":
+            pairs = pairs[:1] + pairs[1:2]
+        for (v1, v2) in pairs:
+            for early in ((False,) if tier == "quick" else (False, True)):
+                tasks.append(((tree, v1, v2, vals, early), label))
+    results = pmap(second_order_group, [a for (a, _l) in tasks], chunksize=1)
+    per = {}
+    for ((tree, v1, v2, vals, early), label), outs in zip(tasks, results):
+        d = per.setdefault(label, [0, 0])
+        for out in outs:
+            if "skip" in out:
+                continue
+            d[0] += 1
+            st = out["status"]
+            construct = f"{label}: d2/d{v1}d{v2}" + (" (early)" if early else "")
+            desc = f"{out['tree']} d2/d{v1}d{v2} at {{{out['val']}}}"
+            if st == "ok" or st == "unjudged":
+                d[1] += 1
+            elif st == "unsupported":
+                rep.unknown("C05.second-order", construct, "", out["reason"])
+            elif st == "value-unknown":
+                rep.unknown("C05.second-order", construct, "", f"{desc}: {out['reason']}")
+            elif st == "raised":
+                rep.violation("C05.second-order", construct, out.get("origin", ""),
+                              f"{desc}: differentiating the returned derivative again raised {out['exc']} although the "
+                              f"original is defined there", witness_class=f"raised {out['exc']} {param_class(tree)}")
+            else:
+                w = out["witness"]
+                rep.violation("C05.second-order", construct, "",
+                              f"{desc}: Partial(Partial(e, {v1}).as_expression(), {v2}).at(p) = {out.get('got')} differs from the "
+                              f"true second-order partial, e.g. at {w['at']}: {w['values'][0]:.6g} vs {w['values'][1]:.6g}",
+                              witness_class=f"value-differs {param_class(tree)}")
+    for label, (n, good) in sorted(per.items()):
+        if n and n == good:
+            rep.ok("C05.second-order", label, "", f"{n} region cases: the derivative of the returned derivative is the "
+                   f"second specification derivative", cases=n)
 
 
 def check(rep):
     run_derivative_property(rep, "C05", routes=[], expr_routes=list(EXPR_ROUTES), judge_mode="expr",
                             explanation="")
+    check_second_order(rep)
     rep.require_floor("C05.expr", 60, "class/route combinations")
+    rep.require_floor("C05.second-order", 15, "instance families")
     return rep.finish(
         explanation="as_expression() of Partial, Derivative and Differential components (forward builder and "
                     "reverse builder with symbolic multipliers, early and late, each followed by the library's "
